@@ -882,8 +882,14 @@ def clause_block(kind, clauses, fn_label, indent="    "):
 def build_fn(ctx, unit, fs):
     file_rel, _, rest = fs.path.partition("::")
     file_rel = file_rel.strip()
-    elems = [e.strip() for e in rest.split("::")]
-    # re-join generic path elements that were split on '::' inside impl headers (not used)
+    elems0 = [e.strip() for e in rest.split("::")]
+    # re-join path elements that were split on '::' inside an impl header (`impl<..> std::fmt::Display for T`)
+    elems = []
+    for e_ in elems0:
+        if elems and elems[-1].startswith("impl") and not re.match(r"^(fn|impl|trait|mod|lazy|const|static|struct|enum)\b", e_):
+            elems[-1] += "::" + e_
+        else:
+            elems.append(e_)
     sf = ctx.sf(file_rel)
     lazy = None
     if len(elems) == 1 and elems[0].startswith("lazy "):
